@@ -1,5 +1,5 @@
 import BrushVerif.Model.Print
-/-! Driver for C14: `C14 <function tree in prefix form>` → `P=<esc printed text>` (see tools/c14gen.py `wire`). -/
+/-! Driver for C14: `C14 <function tree in prefix form>` → `P=<esc printed text> X=<esc exported text> W=<esc print after import>` (see tools/c14gen.py `wire`). -/
 namespace BrushVerif.Drv.C14
 open BrushVerif.Wire BrushVerif.Print
 
@@ -212,7 +212,11 @@ end
 
 def handle (toks : List Str) : Str :=
   match rdCmd toks with
-  | some (.fdef name c rs, []) => "P=".toList ++ esc (printFn name c rs)
+  | some (.fdef name c rs, []) =>
+    -- P: `declare -f` text; X: exported text; W: what a child shell prints after importing X
+    let w := if isBrace c then printFn name c rs
+             else printFn name (.brace (.cons (.mk 0 false (.comp c rs) .nil) .nil false .nil)) .nil
+    "P=".toList ++ esc (printFn name c rs) ++ " X=".toList ++ esc (exportText c rs) ++ " W=".toList ++ esc w
   | _ => "bad-request".toList
 
 end BrushVerif.Drv.C14
